@@ -47,18 +47,48 @@ fn main() {
                 let k = seen.entry(c.label.clone()).or_insert(0);
                 if *k >= 3 { continue; }
                 *k += 1;
+                let mut model_used = c.model.clone();
+                let (mut confirmed, mut mode, mut errs, mut other);
+                if c.float {
+                    // bit-precise model from the QF_FP query: replay in f64 semantics; if this very input
+                    // recovers, search the neighbourhood for an input on which the failure manifests end to end
+                    let cf = run_concrete(cfg.clone(), true, &c.model, &mut body);
+                    confirmed = cf.failures.iter().any(|l| *l == c.label);
+                    mode = "f64";
+                    errs = cf.errors.clone();
+                    other = cf.failures.clone();
+                    if !confirmed {
+                        let names: Vec<String> = c.model.keys().cloned().collect();
+                        let mut st: u64 = 0x9E3779B97F4A7C15 ^ (cfg.seed.wrapping_mul(0x2545F4914F6CDD1D)) | 1;
+                        let mut next = || { st ^= st << 13; st ^= st >> 7; st ^= st << 17; st };
+                        let (lo, hi) = cfg.float_search;
+                        for _trial in 0..cfg.float_search_trials {
+                            let mut m = BTreeMap::new();
+                            for n in &names {
+                                let u = (next() >> 11) as f64 / (1u64 << 53) as f64;
+                                let mag = (lo.ln() + u * (hi.ln() - lo.ln())).exp();
+                                let x = if next() & 1 == 0 { mag } else { -mag };
+                                m.insert(n.clone(), format!("bits:{:016x}", x.to_bits()));
+                            }
+                            let ct = run_concrete(cfg.clone(), true, &m, &mut body);
+                            if ct.failures.iter().any(|l| *l == c.label) { confirmed = true; model_used = m; mode = "f64 (found by search around the solver model)"; break; }
+                        }
+                    }
+                } else {
                 let cr = run_concrete(cfg.clone(), false, &c.model, &mut body);
-                let mut confirmed = cr.failures.iter().any(|l| *l == c.label);
-                let mut mode = "exact-rational";
-                let mut errs = cr.errors.clone();
-                let mut other = cr.failures.clone();
+                confirmed = cr.failures.iter().any(|l| *l == c.label);
+                mode = "exact-rational";
+                errs = cr.errors.clone();
+                other = cr.failures.clone();
                 if !confirmed {
                     let cf = run_concrete(cfg.clone(), true, &c.model, &mut body);
                     if cf.failures.iter().any(|l| *l == c.label) { confirmed = true; mode = "f64"; }
                     errs.extend(cf.errors);
                     other.extend(cf.failures);
                 }
-                let model = c.model.iter().map(|(k, v)| format!("{}:{}", jstr(k), jstr(v))).collect::<Vec<_>>().join(",");
+                }
+                other.truncate(6);
+                let model = model_used.iter().map(|(k, v)| format!("{}:{}", jstr(k), jstr(v))).collect::<Vec<_>>().join(",");
                 viol.push(format!("{{\"label\":{},\"model\":{{{}}},\"confirmed\":{},\"mode\":{},\"exact_model\":{},\"replay_errors\":{},\"replay_failures\":{},\"trace\":{}}}",
                     jstr(&c.label), model, confirmed, jstr(mode), c.exact, jlist(&errs), jlist(&other), jstr(&format!("{:?}", c.trace))));
             }
